@@ -206,7 +206,11 @@ pub fn render_entity(table: &TableDef) -> Result<String, String> {
     // SQLAlchemy imports
     let mut sa_imports: Vec<&str> = used_types.sa_types.iter().copied().collect();
     sa_imports.sort();
-    lines.push(format!("from sqlalchemy import {}", sa_imports.join(", ")));
+    // A table whose columns are all custom-typed (and that has no FK / index /
+    // composite unique / server default) needs nothing from sqlalchemy itself.
+    if !sa_imports.is_empty() {
+        lines.push(format!("from sqlalchemy import {}", sa_imports.join(", ")));
+    }
     lines.push("from sqlalchemy.orm import DeclarativeBase, Mapped, mapped_column".into());
     lines.push("".into());
     lines.push("".into());
